@@ -8,10 +8,13 @@
    scalars, with any number of fields: the compiler's classification equals the System V
    classification, and the words of a register-passed struct start at offsets 0 and 8,
    have the register class of their eightbyte and cover the object with a precisely
-   stated excess.  The whole-signature statement (register budget, stack spill, sret) is
-   the executable checker [SysV.abi_ok]; it is NOT proved here, it is evaluated on the
-   model's and on the real compiler's pass modes for every generated signature. *)
-From Capy Require Import Common.Util Common.CAbiTy Model.Abi Spec.SysV Proofs.AbiProofs.
+   stated excess; and for EVERY signature (any number of parameters, any return type of
+   the fragment) the pass modes chosen by the model of fn_ty_to_abi, pushed through
+   to_cl and the (assumed) sequential register assignment of Cranelift, place every
+   argument and the return value where System V says: [C19_passmode_agrees].  The same
+   executable checker [SysV.abi_ok] is evaluated on the real compiler's pass modes for
+   every generated signature (direct oracle). *)
+From Capy Require Import Common.Util Common.CAbiTy Model.Abi Spec.SysV Proofs.AbiProofs Proofs.AbiSigProofs.
 Open Scope N_scope.
 
 (* the eightbyte merge of the code is the merge of the ABI document *)
@@ -72,6 +75,54 @@ Theorem C19_words_exact_except_known : forall fs scls,
     split_aggregate (asize (AStruct fs)) cls = Ok tys /\ covered tys = asize (AStruct fs).
 Proof. exact words_exact_except_known. Qed.
 Print Assumptions C19_words_exact_except_known.
+
+(* THE WHOLE-SIGNATURE STATEMENT.  For every parameter list and return type of the
+   C-compatible fragment (up to the u16 parameter index of the code), the model of
+   fn_ty_to_abi does not panic and satisfies the System V checker: 6 INTEGER / 8 SSE
+   argument registers assigned left to right per eightbyte, an argument whose eightbytes
+   do not ALL fit goes to the stack as a whole (8-byte rounded C size, registers stay
+   available for later arguments), MEMORY-class arguments on the stack, MEMORY-class
+   returns through a hidden pointer that consumes %rdi, register returns in rax/rdx and
+   xmm0/xmm1; every register word starts at its eightbyte's offset and is at least as wide
+   as the data of that eightbyte.  Induction over the parameter list with the register
+   counters and the stack offset as invariant (Proofs/AbiSigProofs.v: args_sim). *)
+Theorem C19_passmode_agrees : forall ts ret,
+  Forall wf_aty ts -> wf_rty ret -> N.of_nat (length ts) <= 65536 ->
+  exists a, fn_ty_to_abi ts ret = Ok a /\ abi_ok ts ret a = true.
+Proof. exact passmode_agrees. Qed.
+Print Assumptions C19_passmode_agrees.
+
+(* Bytes READ from the argument object by the caller (get_arg_list).  "No pass mode reads
+   past the object" is false of the code as it is ({[3]u8}: a 4-byte load of a 3-byte
+   object; findings C19-1 / C19-2): a register-passed struct is over-read by exactly
+   rem_over bytes, a stack-passed one is read up to its 8-rounded C size. *)
+Definition C19_reads_within_full : Prop := reads_within_full.
+Theorem C19_reads_within_full_refuted : ~ C19_reads_within_full.
+Proof. exact reads_within_full_refuted. Qed.
+Print Assumptions C19_reads_within_full_refuted.
+
+Theorem C19_caller_read_cast : forall fs scls,
+  wf_aty (AStruct fs) -> sysv_classify (AStruct fs) = Some scls ->
+  exists cls tys, classify_arg (AStruct fs) = Ok (Some cls) /\
+    split_aggregate (asize (AStruct fs)) cls = Ok tys /\
+    caller_read (Cast tys) = asize (AStruct fs)
+      + rem_over (asize (AStruct fs) - 8 * N.of_nat (length scls - 1)) (last scls NO_CLASS).
+Proof. exact caller_read_cast. Qed.
+Print Assumptions C19_caller_read_cast.
+
+Theorem C19_caller_read_byval : forall fs,
+  caller_read (Indirect (Some (next_multiple_of_8 (astride (AStruct fs)))))
+  = align_up (c_sizeof (AStruct fs)) 8
+  /\ asize (AStruct fs) <= align_up (c_sizeof (AStruct fs)) 8.
+Proof. exact caller_read_byval. Qed.
+Print Assumptions C19_caller_read_byval.
+
+(* fix candidate C19-1/2 (padded temporary when a read would exceed the object): no pass
+   mode reads past the object any more; registers and stack placement are unchanged, so
+   C19_passmode_agrees carries over *)
+Theorem C19_caller_read_fixed_within : forall pm size, caller_read_fixed pm size <= size.
+Proof. exact caller_read_fixed_within. Qed.
+Print Assumptions C19_caller_read_fixed_within.
 
 (* Non-vacuity / tests of the whole-signature checker (vm_compute = test, not theorem) *)
 Example C19_example_classes :
